@@ -24,8 +24,8 @@ CATALOGUE = {
     "S-NUMBA": "Numba-generated machine code (fastmath) computes the same function as the Python source",
     "A-QUAT": "every proper rotation is Qn(q)/|q|^2 for some q != 0 (Euler-Rodrigues)",
     "A-SIGMA": "finite-sum laws (homogeneity, additivity, congruence, monotonicity, re-indexing); proved in lean/PvSigma.lean against Mathlib",
-    "A-POW": "x^a: 0^a=0 (a>0), x^0=1, x^1=x, 1^a=1, x>0 => x^a>0; EXP>0, EXP(0)=1",
-    "A-TRIG": "sin^2+cos^2=1, cos(acos u)=u, sin(acos u)=sqrt(1-u^2), cos/sin(atan2(y,x))=x/rho,y/rho, ranges of acos/atan2",
+    "A-POW": "x^a: 0^a=0 (a>0), x^0=1, x^1=x, 1^a=1, x>0 => x^a>0; EXP>0, EXP(0)=1, EXP(x)<=1 for x<=0; sqrt as the witness w>=0, w*w=x -- proved in lean/PvAtoms.lean against Mathlib for Real.rpow / Real.exp / Real.sqrt; assumed: the floating-point library functions behave like these real functions",
+    "A-TRIG": "sin^2+cos^2=1, cos(acos u)=u, sin(acos u)=sqrt(1-u^2), cos/sin(atan2(y,x))=x/rho,y/rho, ranges of acos/atan2 -- proved in lean/PvAtoms.lean against Mathlib for Real.sin/cos/arccos and Complex.arg; assumed: the floating-point library functions behave like these real functions",
     "A-DIFF": "differentiation rules of the term language (sum, product, quotient, integer power, SIN, COS, ATAN2); cross-checked with sympy",
     "A-LSODA": "LSODA.step() yields a finite y with positive total fraction mass or status 'failed'; integrates to the requested tolerances; deterministic; step control covariant under time rescaling",
     "A-EIG": "eigvalsh/eigh return ascending real eigenvalues/orthonormal eigenvectors of the symmetric matrix; svd returns orthogonal U,Vh and S>=0 with M=U diag(S) Vh; det/norm as defined",
@@ -35,6 +35,36 @@ CATALOGUE = {
     "A-POOL": "Pool.imap yields f(x_i) in input order for every worker count",
     "A-SCIPY-Q": "Rotation.from_matrix(.).as_quat(), from_rotvec, from_euler are the standard conversions",
 }
+
+
+LEAN_FILES = {"A-SIGMA": "PvSigma.lean", "A-POW": "PvAtoms.lean", "A-TRIG": "PvAtoms.lean"}
+
+
+def lean_recheck(assumptions, budget_s=900):
+    """Thorough tier: the Lean proofs behind A-SIGMA / A-POW / A-TRIG are re-checked by `lean` (Mathlib) in this run.
+    Returns (notes, failures)."""
+    import shutil
+    import subprocess
+
+    files = sorted({LEAN_FILES[a] for a in assumptions if a in LEAN_FILES})
+    notes, fails = [], []
+    if not files:
+        return notes, fails
+    if shutil.which("lean") is None:
+        return [f"lean not on PATH: {files} not re-checked in this run"], fails
+    for f in files:
+        t0 = time.time()
+        try:
+            r = subprocess.run(["lean", os.path.join(ROOT, "lean", f)], capture_output=True, text=True, timeout=budget_s, cwd=os.path.join(ROOT, "lean"))
+            out = (r.stdout + r.stderr).strip()
+            bad = r.returncode != 0 or "error:" in out or "sorry" in out
+            if bad:
+                fails.append(f"lean rejects lean/{f}: {out[:300]}")
+            else:
+                notes.append(f"lean/{f} re-checked by lean (Mathlib) in this run: accepted, no sorry, {time.time() - t0:.0f}s")
+        except subprocess.TimeoutExpired:
+            notes.append(f"lean/{f}: re-check exceeded {budget_s}s and was abandoned (not counted either way)")
+    return notes, fails
 
 
 def load_known(pid):
@@ -337,6 +367,12 @@ class Run:
         for k in stale:
             self.note(f"known finding not observed in this run (stale or not exercised in this tier): {k.get('obligation')}")
         trusted = sorted(self.assumptions)
+        if self.tier == "thorough":
+            ln, lf = lean_recheck(trusted)
+            self.notes.extend(ln)
+            self.checker_failures.extend(lf)
+        elif any(a in LEAN_FILES for a in trusted):
+            self.note("the Lean proofs behind " + ", ".join(a for a in trusted if a in LEAN_FILES) + " (lean/*.lean) are re-checked by the thorough tier")
         cov = dict(
             obligations=n,
             discharged=proved,
